@@ -16,6 +16,12 @@ tvars == <<vars, tid, pos, verdict>>
 Ev == Traces[tid][pos]
 D(r) == Dec(r.neg, r.digs, r.e)
 
+OptOf(o) == [api |-> o.api, impl |-> o.impl, fsty |-> o.fsty, xty |-> o.xty, uname |-> o.uname,
+             ucv |-> IF o.ucv.from = "" THEN NoConv ELSE ConvOf(o.ucv.from, o.ucv.to)]
+TraceSlice == [Signs |-> {}, Sigs |-> {}, Exps |-> {}, Precs |-> {}, UncSigs |-> {}, UncOffs |-> {}, UncPrecs |-> {},
+               Units |-> {}, Convs |-> {}, UncSrcs |-> {}, RomanMax |-> 0, Opts |-> {}, RomanTypes |-> {}]
+TraceTable == [nm \in {"trace"} |-> TraceSlice]
+
 TInit == Init /\ tid \in 1..Len(Traces) /\ pos = 1 /\ verdict = "none"
 
 Step(e) ==
@@ -26,7 +32,8 @@ Step(e) ==
       [] e.k = "uncert"  -> ChooseUncert(D(e.xe), e.p, e.src)
       [] e.k = "convert" -> ConvertTo(e.from, e.to)
       [] e.k = "formatu" -> FormatUncert
-      [] e.k = "roman"   -> RomanChoose(e.n)
+      [] e.k = "roman"   -> RomanChoose(e.n, e.ty)
+      [] e.k = "options" -> Options(OptOf(e.o))
       [] OTHER           -> FALSE
 
 ObsClause(o) ==
@@ -34,7 +41,7 @@ ObsClause(o) ==
     ELSE IF ~o.lexed THEN "not-number-then-unit"
     ELSE IF o.unit # unit THEN "unit-text"
     ELSE IF mode = "number" THEN NumberClause(o, Shown(x), n, TRUE)
-    ELSE IF mode = "uncert" THEN (IF o.hasu THEN UncertClause(o, Shown(x), Shown(xe), p, TRUE) ELSE "no-uncertainty-shown")
+    ELSE IF mode = "uncert" THEN (IF o.hasu THEN UncertClause(o, Shown(x), ShownU(xe), p, TRUE) ELSE "no-uncertainty-shown")
     ELSE "mode"
 
 ResultOK(e) ==
